@@ -29,6 +29,8 @@ structure Svc where
   metricsPort : Option Nat
   rpcPort : Nat
   version : Nat
+  /-- `connected_peers`, as a count (`None` until a full `on_start`, `None` again after `on_stop`) -/
+  peers : Option Nat
 deriving DecidableEq, Repr
 
 structure Proc where
@@ -105,10 +107,25 @@ def osInstall (os : OS) (n : Nat) (port : Option Nat) : OS :=
 
 def osKill (os : OS) (n : Nat) : OS := { os with procs := os.procs.filter (fun p => p.svc ≠ n) }
 
+/-- The service's process dies and comes back under a new pid without the manager (service-manager auto-restart,
+crash + restart). Nothing happens if the service has no process. -/
+def osRestart (os : OS) (n : Nat) : OS :=
+  match os.lookup n with
+  | none => os
+  | some _ =>
+    { os with
+      procs := os.procs.filter (fun p => p.svc ≠ n) ++ [⟨os.nextPid, n, (os.cfgPort n).getD (40000 + os.nextPid)⟩],
+      nextPid := os.nextPid + 1 }
+
+/-- What the fake node RPC reports in `network_info`, as a function of the pid: number of connected peers
+(0, 1 or 40) and whether the listener list is empty. -/
+def peersOf (pid : Nat) : Nat := match (pid + 2) % 3 with | 0 => 0 | 1 => 1 | _ => 40
+def listenersEmpty (pid : Nat) : Bool := pid % 7 == 3
+
 /-! ## `NodeService` state actions -/
 
 def onStop (s : Svc) : Svc :=
-  { s with pid := if Gen.Lifecycle.onStopClearsPid then none else s.pid, status := .stopped }
+  { s with pid := if Gen.Lifecycle.onStopClearsPid then none else s.pid, status := .stopped, peers := none }
 
 /-- The registry entry `on_start` leaves behind when one of its RPC calls fails. -/
 def rpcErrSvc (s : Svc) (pid : Nat) : Svc :=
@@ -137,9 +154,12 @@ def onStartFull (s : Svc) (os : OS) (fx : Fx) (pid : Nat) (ct : Bool) : Svc × F
       | some e => (rpcErrSvc s pid, fx, some e)
       | none =>
         let np := match os.lookup s.number with
-          | some p => some p.port
+          | some p => if listenersEmpty p.pid then s.nodePort else some p.port
           | none => s.nodePort
-        ({ s with status := .running, pid := some pid, nodePort := np }, fx, none)
+        let cp := match os.lookup s.number with
+          | some p => some (peersOf p.pid)
+          | none => s.peers
+        ({ s with status := .running, pid := some pid, nodePort := np, peers := cp }, fx, none)
 
 /-! ## `ServiceManager` operations on one service -/
 
@@ -222,6 +242,19 @@ def svcRefresh (os : OS) (s : Svc) : Svc :=
     | .removed => s
     | _ => onStop s
 
+/-- `refresh_node_registry(.., full_refresh = true, ..)` as `antctl status` calls it. The function builds a real
+`RpcClient` itself; in the harness world no node RPC endpoint is served, so `on_start(pid, true)` fails with
+`RpcConnectionError` at the first entry whose process is alive and the `?` leaves the loop there; entries before it
+(no process) are treated as in the partial refresh. Returns the registry and whether it failed. -/
+def refreshFull (os : OS) : List Svc → List Svc × Bool
+  | [] => ([], false)
+  | s :: r =>
+    match os.lookup s.number with
+    | some p => (rpcErrSvc s p.pid :: r, true)
+    | none =>
+      match refreshFull os r with
+      | (r', f) => (svcRefresh os s :: r', f)
+
 /-! ## `add_node` -/
 
 def allPorts (reg : List Svc) : List Nat :=
@@ -291,9 +324,9 @@ def addOne (num : Nat) (np mp rp : Option Nat) (metrics : Bool) (ver : Nat) (a :
     | (true, fx) => { a with w := ⟨w.reg, mkDir w.os num⟩, fx := fx, failed := a.failed ++ [num] }
     | (false, fx) =>
       { a with
-        w := ⟨w.reg ++ [⟨num, .added, none, np, metP, rpcP, ver⟩], osInstall (mkDir w.os num) num np⟩,
+        w := ⟨w.reg ++ [⟨num, .added, none, np, metP, rpcP, ver, none⟩], osInstall (mkDir w.os num) num np⟩,
         fx := fx, added := a.added ++ [num],
-        file := w.reg ++ [⟨num, .added, none, np, metP, rpcP, ver⟩] }
+        file := w.reg ++ [⟨num, .added, none, np, metP, rpcP, ver, none⟩] }
 
 /-- The loop, `k` iterations left; a failed port allocation (`?`) leaves the function at once. -/
 def addLoop : Nat → Nat → Option Nat → Option Nat → Option Nat → Bool → Nat → AddAcc → AddAcc
@@ -338,7 +371,8 @@ def Status.code : Status → Nat
   | .added => 0 | .running => 1 | .stopped => 2 | .removed => 3
 
 def encSvc (s : Svc) : List Nat :=
-  [s.number, s.status.code] ++ encOpt s.pid ++ encOpt s.nodePort ++ encOpt s.metricsPort ++ [s.rpcPort, s.version]
+  [s.number, s.status.code] ++ encOpt s.pid ++ encOpt s.nodePort ++ encOpt s.metricsPort ++ [s.rpcPort, s.version] ++
+    encOpt s.peers
 
 def encode : List Svc → List Nat
   | [] => [0]
@@ -359,7 +393,10 @@ def decSvc : List Nat → Option (Svc × List Nat)
       match decOpt r with
       | some (np, r) =>
         match decOpt r with
-        | some (mp, rp :: ver :: r) => some (⟨num, st, pid, np, mp, rp, ver⟩, r)
+        | some (mp, rp :: ver :: r) =>
+          match decOpt r with
+          | some (cp, r) => some (⟨num, st, pid, np, mp, rp, ver, cp⟩, r)
+          | none => none
         | _ => none
       | none => none
     | _, _ => none
@@ -385,6 +422,8 @@ inductive Op where
   | remove (i : Nat) (keep : Bool) (faults : List Bool)
   | upgrade (i : Nat) (force start : Bool) (ver : Nat) (ct : Bool) (faults : List Bool)
   | refresh
+  | refreshFull
+  | restartOutside (i : Nat)
   | kill (i : Nat)
   | flaky (i : Nat) (on : Bool)
   | saveload
@@ -408,6 +447,13 @@ def exec (w : World) : Op → World × Res × Nat
   | .remove i keep faults => onSvc w i faults (fun s os fx => svcRemove s os fx keep)
   | .upgrade i force start ver ct faults => onSvc w i faults (fun s os fx => svcUpgrade s os fx force start ver ct)
   | .refresh => (⟨w.reg.map (svcRefresh w.os), w.os⟩, .ok, 0)
+  | .refreshFull =>
+    match refreshFull w.os w.reg with
+    | (reg, failed) => (⟨reg, w.os⟩, if failed then .err "err:svc:RpcConnectionError" else .ok, 0)
+  | .restartOutside i =>
+    match w.reg[i]? with
+    | none => (w, .err "err:no-such-service", 0)
+    | some s => (⟨w.reg, osRestart w.os s.number⟩, .ok, 0)
   | .kill i =>
     match w.reg[i]? with
     | none => (w, .err "err:no-such-service", 0)
